@@ -1,0 +1,36 @@
+//go:build verif
+
+package nsqd
+
+import "time"
+
+// VerifGUIDCall puts a fresh guidFactory into the given state, calls NewGUID once
+// and reports the clock readings (UnixNano >> 20) taken just before and just after
+// the call, the outcome (0 = id, 1 = ErrTimeBackwards, 2 = ErrSequenceExpired,
+// 3 = ErrIDBackwards) and the factory's state afterwards.
+func VerifGUIDCall(nodeID, sequence, lastTimestamp, lastID int64) (tsBefore, tsAfter, id int64, code int, seq2, lastTs2, lastID2 int64) {
+	f := NewGUIDFactory(nodeID)
+	f.sequence, f.lastTimestamp, f.lastID = sequence, lastTimestamp, guid(lastID)
+	tsBefore = time.Now().UnixNano() >> 20
+	g, err := f.NewGUID()
+	tsAfter = time.Now().UnixNano() >> 20
+	switch err {
+	case nil:
+		code = 0
+	case ErrTimeBackwards:
+		code = 1
+	case ErrSequenceExpired:
+		code = 2
+	case ErrIDBackwards:
+		code = 3
+	default:
+		code = 9
+	}
+	return tsBefore, tsAfter, int64(g), code, f.sequence, f.lastTimestamp, int64(f.lastID)
+}
+
+// VerifGUIDHex renders an id as guid.Hex does.
+func VerifGUIDHex(id int64) string {
+	h := guid(id).Hex()
+	return string(h[:])
+}
